@@ -327,6 +327,33 @@ func (env *Env) elabCall(n ECall) (string, SType, error) {
 			return "", tBool, err
 		}
 		return "(s_arr " + t + ")", tRef, nil
+	case "elems": // contents array of a slice (raw SMT array)
+		t, st, err := env.elab(n.Args[0])
+		if err != nil {
+			return "", tBool, err
+		}
+		sl, ok := st.T.Underlying().(*types.Slice)
+		if st.T == nil || !ok {
+			return "", tBool, fmt.Errorf("elems of non-slice %s", st)
+		}
+		return fmt.Sprintf("(select %s (s_arr %s))", env.heap(w.heapArr(sl.Elem())), t), SType{Abs: "(Array Int " + w.sortOf(sl.Elem()) + ")"}, nil
+	case "off":
+		t, _, err := env.elab(n.Args[0])
+		if err != nil {
+			return "", tBool, err
+		}
+		return "(s_off " + t + ")", tInt, nil
+	case "string": // string(b) for b []byte
+		t, st, err := env.elab(n.Args[0])
+		if err != nil {
+			return "", tBool, err
+		}
+		sl, ok := st.T.Underlying().(*types.Slice)
+		if st.T == nil || !ok {
+			return "", tBool, fmt.Errorf("string() of non-slice %s", st)
+		}
+		f := e.declareFun(q("str_of."+w.tyid(sl.Elem())), []string{"(Array Int " + w.sortOf(sl.Elem()) + ")", "Int", "Int"}, "Str")
+		return fmt.Sprintf("(%s (select %s (s_arr %s)) (s_off %s) (s_len %s))", f, env.heap(w.heapArr(sl.Elem())), t, t, t), tStr, nil
 	case "ref": // view any Ref-sorted value as Ref
 		t, _, err := env.elab(n.Args[0])
 		return t, tRef, err
@@ -402,6 +429,29 @@ func (env *Env) elabCall(n ECall) (string, SType, error) {
 			as = append(as, t)
 		}
 		return fmt.Sprintf("(%s %s)", name, strings.Join(as, " ")), rst, nil
+	}
+	// external pure function pkg.Func: the same uninterpreted symbol the
+	// encoder uses for calls to it
+	if i := strings.Index(n.Fn, "."); i > 0 {
+		if p, ok := w.allPkgs[n.Fn[:i]]; ok {
+			if fo, ok := p.Scope().Lookup(n.Fn[i+1:]).(*types.Func); ok {
+				sig := fo.Type().(*types.Signature)
+				if sig.Results().Len() == 1 && sig.Params().Len() == len(n.Args) {
+					var sorts, as []string
+					for j, a := range n.Args {
+						t, _, err := env.elab(a)
+						if err != nil {
+							return "", tBool, err
+						}
+						as = append(as, t)
+						sorts = append(sorts, w.sortOf(sig.Params().At(j).Type()))
+					}
+					name := q("call:" + n.Fn)
+					e.declareFun(name, sorts, w.sortOf(sig.Results().At(0).Type()))
+					return fmt.Sprintf("(%s %s)", name, strings.Join(as, " ")), SType{T: sig.Results().At(0).Type()}, nil
+				}
+			}
+		}
 	}
 	return "", tBool, fmt.Errorf("unknown function %q", n.Fn)
 }
